@@ -1,0 +1,36 @@
+package validator
+
+import (
+	"github.com/jsightapi/jsight-schema-go-library/errors"
+	"github.com/jsightapi/jsight-schema-go-library/internal/json"
+	"github.com/jsightapi/jsight-schema-go-library/internal/lexeme"
+	"github.com/jsightapi/jsight-schema-go-library/notations/jschema/internal/schema"
+)
+
+// nullValidator is the alternative added by `nullable: true` next to user types,
+// objects and arrays: it accepts the null literal and nothing else.
+type nullValidator struct {
+	literalValidator
+}
+
+func newNullValidator(node schema.Node, parent validator) *nullValidator {
+	return &nullValidator{literalValidator{node_: node, parent_: parent}}
+}
+
+func (v *nullValidator) feed(jsonLexeme lexeme.LexEvent) ([]validator, bool) {
+	defer lexeme.CatchLexEventError(jsonLexeme)
+
+	switch jsonLexeme.Type() { //nolint:exhaustive // We will throw a panic in over cases.
+	case lexeme.LiteralBegin:
+		return nil, false
+	case lexeme.LiteralEnd:
+		value := jsonLexeme.Value()
+		if value.String() != "null" {
+			jsonType := json.Guess(value).LiteralJsonType() // can panic
+			panic(errors.Format(errors.ErrInvalidValueType, jsonType.String(), json.TypeNull.String()))
+		}
+		return nil, true
+	}
+
+	panic(errors.ErrUnexpectedLexInLiteralValidator)
+}
